@@ -28,6 +28,12 @@ def explore(ctx: Ctx, prefix: str, seed_salt: int):
         try:
             mc_res["r"] = tlc.run_tlc("MC_AlignCore", "MC_AlignCore.cfg" if quick else "MC_AlignCore_thorough.cfg",
                                       ctx.workdir, workers=6 if quick else 12, heap_gb=16, timeout=5400)
+            if not quick:
+                # beyond the exhaustive bounds: random behaviours of the same model with larger constants
+                # (4-6 reference labels on 0..8, 3-4 query labels, 3-4 seed peaks, maxD 1-2, join multiplier 0/1)
+                mc_res["sim"] = tlc.run_tlc("MC_AlignCore", "MC_AlignCore_sim.cfg", ctx.workdir, workers=8, heap_gb=8,
+                                            simulate="num=20000", depth=200, timeout=3600,
+                                            extra=["-seed", str(ctx.seed + 1)])
         except Exception as e:
             mc_res["err"] = e
 
@@ -53,5 +59,7 @@ def explore(ctx: Ctx, prefix: str, seed_salt: int):
     if "err" in mc_res:
         raise mc_res["err"]
     ctx.add_model("MC_AlignCore", mc_res["r"])
+    if "sim" in mc_res:
+        ctx.add_model("MC_AlignCore (-simulate, larger constants)", mc_res["sim"], exhaustive=False)
     ctx.exhaustive = True
     return records, out
